@@ -17,7 +17,7 @@ With(b, f, v) == [b EXCEPT !.c[f] = v]
 Pool ==
   { Base,
     \* re-spellings (must collide with a neighbour)
-    With(Base, "env", E(FALSE, <<>>)), With(Base, "plugins", PL(FALSE, <<>>)), With(Base, "matrix", "empty"),
+    With(Base, "env", E(FALSE, <<>>)), With(Base, "plugins", PL(FALSE, <<>>)), With(Base, "matrix", "empty"), With(Base, "matrix", "empty_alloc"),
     With(Base, "plugins", PL(FALSE, <<[src |-> "short", cfg |-> "null"]>>)), With(Base, "plugins", PL(FALSE, <<[src |-> "canon", cfg |-> "empty"]>>)),
     With(Base, "plugins", PL(FALSE, <<[src |-> "canon", cfg |-> "emptylist"]>>)),
     \* single-point variants
